@@ -159,6 +159,10 @@ def check_config_stable(prop: str, res: Result, repo: Repo):
             n += 1
             vals = st.value.elts if isinstance(st.value, ast.Tuple) else [st.value]
             swap = len(tgts) >= 2 and all(isinstance(v, ast.Attribute) and ast.unparse(v) in {ast.unparse(t) for t in tgts} for v in vals)
+            # `a, b = sorted((a, b))` is the conditional exchange spelled with sorted()
+            sv = st.value
+            if not swap and len(tgts) == 2 and isinstance(sv, ast.Call) and isinstance(sv.func, ast.Name) and sv.func.id == "sorted" and len(sv.args) == 1 and not sv.keywords and isinstance(sv.args[0], (ast.Tuple, ast.List)) and sorted(ast.unparse(e) for e in sv.args[0].elts) == sorted(ast.unparse(t) for t in tgts):
+                swap = True
             # exchanging two settings is only harmless where the definition is symmetric in them (confirmed by reading, frozen here)
             if swap and (ci.name, frozenset(t.attr for t in tgts)) not in SYMMETRIC_SETTINGS:
                 res.fail(rule, finding(prop, rule, m, st, f"{ci.name}._validate_fields exchanges the settings {sorted(t.attr for t in tgts)}: the definition of {ci.name} is not symmetric in them (each smoothing stage is seeded over its own length), so the instance computes another indicator than the one configured"))
